@@ -418,6 +418,10 @@ def call_method(ex, e, st, recv, meth, desc):
     if k == 'set':
         return val(st, set_method(ex, st, recv, ty, a, meth, args, kwargs, desc))
     if k == 'str':
+        fn = ex.reg.extern_methods.get(('str', meth))
+        if fn is not None:
+            ex.used_trusted.add(fn.trusted_name)
+            return val(st, fn(ex, st, e, recv, args, kwargs))
         return val(st, str_method(ex, st, recv, meth, args, kwargs, desc))
     raise Unsupported(f'method {meth} on {ty}: {desc}')
 
